@@ -2235,6 +2235,9 @@ impl WasmGenerator {
             .any(|(_, instr)| match instr {
                 I::Call(fn_ptr, _, _) => !matches!(fn_ptr.as_ref(), mir::Value::ExtFunction(_, _)),
                 I::CallIndirect(_, _, _) | I::CallCls(_, _, _) => true,
+                // a closure created here may capture a cell allocated here and outlive this
+                // activation: every activation needs cells of its own
+                I::Closure(_) | I::MakeClosure { .. } => true,
                 _ => false,
             })
     }
